@@ -67,7 +67,7 @@ def tree_key(repo):
                 h.update(hashlib.sha256(fh.read()).digest())
     h.update(os.path.abspath(repo).encode())
     # extraction logic version: bump when core.py changes what it stores
-    h.update(b'core-v8')
+    h.update(b'core-v9')
     return h.hexdigest()[:24]
 
 
